@@ -476,6 +476,114 @@ def okPcons (r : PRule) (ks : List PD) : GridOut → Bool
   | .refused => pconsMustRefuse r ks
   | .okWf => !pconsMustRefuse r ks
 
+/-! ### the hierarchy handed to an interval / collection constructor as `parent_or_seq_chunk_parent` -/
+
+/-- sequence type of one level, as far as the documentation of the interval classes distinguishes -/
+inductive HTy where
+  | untyped | chromosome | chunk | other
+  deriving DecidableEq, Repr
+
+/-- one level of a hierarchy: its type, whether it carries a sequence, and whether it records where it sits on the
+    level above it (`located`; false on the top level) -/
+structure HL where
+  ty : HTy
+  hasSeq : Bool
+  located : Bool
+  deriving DecidableEq, Repr
+
+/-- bottom-up; `[]` = no parent -/
+abbrev HD := List HL
+
+/-- the refusal classes the class documentation names for a hierarchy -/
+inductive HErr where
+  | NoSuchAncestor | NullSequence | otherDocumented
+  deriving DecidableEq, Repr
+
+/-- what the documentation (`AbstractInterval.liftover_location_to_seq_chunk_parent`, the class docs of the interval
+    classes and of `AnnotationCollection`) demands of a constructor given this hierarchy -/
+inductive HExpect where
+  | accept
+  | refuse (classes : List HErr) (anyDocumented : Bool)
+  deriving DecidableEq, Repr
+
+/-- A hierarchy without a sequence chunk ("a whole genome, or something unknown") is taken as it is.  With a
+    sequence chunk in it the chunk must have a chromosome ABOVE it (else NoSuchAncestorException), must carry the
+    chunk's sequence (else NullSequenceException) and must say where it sits on the level above (no class is named for
+    that: any documented class). -/
+def hierExpect (hd : HD) : HExpect :=
+  match hd.dropWhile (fun l => l.ty != .chunk) with
+  | [] => .accept
+  | c :: above =>
+      let noChrom := !above.any (fun l => l.ty == .chromosome)
+      let noSeq := !c.hasSeq
+      let unlocated := !above.isEmpty && !c.located
+      if noChrom || noSeq || unlocated then
+        .refuse ((if noChrom then [.NoSuchAncestor] else []) ++ (if noSeq then [.NullSequence] else [])) unlocated
+      else .accept
+
+/-- the pool (same order as `impl_validate.hier_kind`): no parent; chromosome with / without sequence; untyped with /
+    without sequence; a plasmid with its sequence; the documented chunk on a chromosome (6); a chunk without any parent;
+    chunks cut from a plasmid / an untyped sequence / another chunk; a chunk level without sequence; a chunk that does
+    not say where it sits on its chromosome; a chunk on a contig on a chromosome (depth 3); an untyped parent that
+    already carries a child location; a chunk on the minus strand; a chunk whose chromosome carries its own sequence; a
+    bare chunk-typed parent; a chromosome located INSIDE a chunk; the chunk of (6) with its place written as
+    `Parent(id, sequence_type, location)` -/
+def hierKinds : List HD :=
+  [[], [⟨.chromosome, true, false⟩], [⟨.chromosome, false, false⟩], [⟨.untyped, true, false⟩], [⟨.untyped, false, false⟩],
+   [⟨.other, true, false⟩],
+   [⟨.chunk, true, true⟩, ⟨.chromosome, false, false⟩],
+   [⟨.chunk, true, false⟩],
+   [⟨.chunk, true, true⟩, ⟨.other, false, false⟩],
+   [⟨.chunk, true, true⟩, ⟨.untyped, false, false⟩],
+   [⟨.chunk, true, true⟩, ⟨.chunk, false, false⟩],
+   [⟨.chunk, false, true⟩, ⟨.chromosome, false, false⟩],
+   [⟨.chunk, true, false⟩, ⟨.chromosome, false, false⟩],
+   [⟨.chunk, true, true⟩, ⟨.other, false, true⟩, ⟨.chromosome, false, false⟩],
+   [⟨.untyped, false, false⟩],
+   [⟨.chunk, true, true⟩, ⟨.chromosome, false, false⟩],
+   [⟨.chunk, true, true⟩, ⟨.chromosome, true, false⟩],
+   [⟨.chunk, false, false⟩],
+   [⟨.chromosome, true, true⟩, ⟨.chunk, true, false⟩],
+   [⟨.chunk, true, true⟩, ⟨.chromosome, false, false⟩]]
+
+/-- what a constructor call on a hierarchy ended in -/
+inductive HOut where
+  | okWf | illformed | refused (c : HErr) | internal
+  deriving DecidableEq, Repr
+
+def okHier (hd : HD) : HOut → Bool
+  | .internal => false
+  | .illformed => false
+  | .okWf => hierExpect hd == .accept
+  | .refused c =>
+      match hierExpect hd with
+      | .accept => false
+      | .refuse cs anyDoc => anyDoc || cs.contains c
+
+/-! ### zero-argument members of a valid object -/
+
+/-- what a (valid) object has to work with -/
+structure Res where
+  hasParent : Bool      -- a parent of any kind
+  hasSeq : Bool         -- a sequence to read bases from
+  directional : Bool    -- strand + or -
+  coding : Bool         -- a CDS (transcripts, genes); true for the classes that have no such notion
+  inside : Bool         -- lies completely inside its sequence chunk (true without a chunk)
+  nonEmpty : Bool       -- covers at least one base
+
+/-- A property or a method without arguments of a VALID object has nothing to refuse except what the object lacks:
+    the class documentation names NullSequenceException / NullParentException for a missing sequence / parent,
+    InvalidStrandException for an unstranded object, NoncodingTranscriptError for a transcript without CDS,
+    EmptyLocationException / LocationException / LocationOverlapException / NoSuchAncestorException for an object that
+    is (partly) outside its sequence chunk or covers no base, and NotImplementedError / an export error for
+    operations that are declared unsupported.  Any other class - ValueError and InvalidPositionException in particular, which
+    speak about ARGUMENTS - is not an answer to a call that has none. -/
+def zeroArgRefusalAllowed (r : Res) (c : String) : Bool :=
+  (c == "NullSequence" && !r.hasSeq) || (c == "NullParent" && !(r.hasParent && r.hasSeq)) ||
+  (c == "InvalidStrand" && !r.directional) || (c == "NoncodingTranscript" && !r.coding) ||
+  ((c == "EmptyLocation" || c == "Location" || c == "LocationOverlap" || c == "NoSuchAncestor") && (!r.inside || !r.nonEmpty)) ||
+  c == "NotImplemented" || c == "Export"
+
 /-! ### grid lines: `ok wf` or a documented class -/
 
 def documented : List String :=
